@@ -52,8 +52,10 @@ Proof. vm_compute. repeat split; reflexivity. Qed.
 (* ===== parts (2)/(3): resolution ===== *)
 (* the specification (RFC 3986 5.2) splits and recomposes without loss *)
 Check (recompose_parse5 : forall s, recompose (parse5 s) = s).
-(* (3) the fixed resolver never fails (no Result is unwrapped any more); the pre-fix one does *)
-Check (resolve_impl_total : forall base ref, resolve_impl base ref <> None).
+(* (3) oxiri's unchecked entry point never fails; with the checked one (today's wiring, read from the
+   source into gen/IriWiring.v) resolve_panics_refuted exhibits an accepted pair that panics *)
+Check (resolve_unchecked_total : forall base ref, resolve_gen false base ref <> None).
+Check (resolve_impl_total : typed_resolve_is_checked = false -> forall base ref, resolve_impl base ref <> None).
 (* on references without a path (empty, "?query", "#fragment") the resolver IS RFC 3986 5.2 *)
 Check (resolve_impl_no_path_spec : forall base ref,
   match ref with [] => true | c :: _ => N.eqb c k_qmark || N.eqb c k_hash end = true ->
@@ -87,6 +89,7 @@ Print Assumptions everything_aligned.
 Print Assumptions grammar_examples.
 Print Assumptions recompose_parse5.
 Print Assumptions resolve_impl_no_path_spec.
+Print Assumptions resolve_unchecked_total.
 Print Assumptions resolve_impl_total.
 Print Assumptions prefix_iri_refuted.
 Print Assumptions prefix_irel_refuted.
